@@ -28,23 +28,30 @@ from pfimport import exc_enum
 from pipefunc.map._storage_array._base import storage_registry
 
 PID = "C07"
-PROPS = ["PfModel.Props.C07"]
+PROPS = ["PfModel.Props.C07", "PfModel.Props.C07Ext", "PfModel.Props.C07Geom", "PfModel.Props.C07Conc"]
 DRIVER = "C07"
 RULE = ("a case is one geometry (external/internal sizes 1..3, total rank <= 3, any of the 2^rank masks) and one operation "
         "sequence run on every sampled backend; corpus first, then (a) per small geometry an exhaustive sweep of all key tuples over "
         "ints in [-n-1, n] and a fixed slice set, for reads and dumps, after sampled prefixes, (b) seeded random sequences "
         "(length <= 12 quick / <= 24 thorough, mostly valid keys), (c) a separate malformed stream (wrong rank, far out of range, "
-        "step 0, out-of-range linear indices). Non-trivial: at least one successful dump followed by a read. Distinct by JSON digest.")
+        "step 0, out-of-range linear indices), (d) constructor arguments (well-formed or not) and the runner's `_init_arrays` call "
+        "against `PF.St.construct` / `initArrays`, (e) the registry and the class flags the runner reads against `PF.St.registry`, "
+        "(f) several processes dumping into one FileArray folder (distinct cells / same cell / one writer killed) with a concurrent "
+        "reader. Non-trivial: at least one successful dump followed by a read. Distinct by JSON digest.")
 ASSUMPTIONS = [
     "NumPy is trusted for: element[I] = row-major position of I, .flat/reshape row-major, assignment through tuple indices",
     "cloudpickle round-trips the stored atoms and object arrays (persist/reopen, FileArray files, the Manager of SharedMemoryDictArray)",
     "stored values are atoms (opaque hashable objects, ints, strings) or, with an internal shape, object arrays of exactly that shape",
-    "a result is compared as shape + row-major cells with numpy.ma.masked (by identity) or a set mask bit read as 'masked'; "
-    "ndarray vs MaskedArray container type is not compared (DictArray returns a plain object ndarray holding masked constants for slice keys)",
+    "a result is compared as shape + row-major cells with numpy.ma.masked (by identity) or a set mask bit read as 'masked', plus, "
+    "for every array-shaped result, its container type and dtype ('MaskedArray[object]', 'MaskedArray[bool]'; `Obs.container`)",
     "get_from_index of an absent element: KeyError (dict) and FileNotFoundError (file) are both read as 'Missing'",
-    "linear indices outside 0 <= i < size are outside the property: backends legitimately differ there (ValueError vs False/Missing); "
-    "each backend is compared with its own operational model only",
-    "zarr-backed classes are not importable here and are not covered",
+    "linear indices outside 0 <= i < size: the reference is ndarray.flat[i] WITHOUT NumPy's wrap-around of negative indices "
+    "(IndexError for every i outside the range; the storage classes never wrapped linear indices)",
+    "concurrent writers: one dump of one element is one atomic event on the folder (temporary file + os.replace); the harness "
+    "observes this on the local file system only (no NFS), with a reader polling while 2-4 forked writers dump",
+    "constructor arguments are modelled for non-negative sizes only; geometries that the constructors accept although they are "
+    "not well formed (C07_construct_accepts_non_wf) are outside the property's quantifier and are only counted",
+    "zarr-backed classes are not importable here and are not covered (registry ids starting with 'zarr' are skipped explicitly)",
 ]
 
 MODEL_OF = {"dict": "dict", "shared_memory_dict": "dict", "file_array": "file"}
@@ -155,6 +162,12 @@ def canon_elem(x, internal):
     return [atom_id(v) for v in arr.ravel().tolist()] if arr.dtype != object else [atom_id(v) for v in arr.ravel()]
 
 
+def container(r):
+    """container type + dtype of an array-shaped result, as the Lean driver names `Obs.container`"""
+    dt = "object" if r.dtype == object else str(r.dtype)
+    return f"{'MaskedArray' if isinstance(r, np.ma.MaskedArray) else type(r).__name__}[{dt}]"
+
+
 def canon_array(r, cell):
     if r is np.ma.masked:
         return {"v": "masked"}
@@ -164,7 +177,7 @@ def canon_array(r, cell):
         flat = []
         for idx in np.ndindex(*r.shape):
             flat.append("masked" if m[idx] else cell(data[idx]))
-        return {"shape": list(r.shape), "flat": flat}
+        return {"shape": list(r.shape), "flat": flat, "c": container(r)}
     return {"v": cell(r)}
 
 
@@ -195,7 +208,7 @@ def observe(kind, fn, internal):
             return {"v": f"?mask-dtype:{data.dtype}"}
         if isinstance(r, np.ma.MaskedArray) and not np.array_equal(np.ma.getmaskarray(r), data):
             return {"v": "?mask-data-and-mask-differ"}
-        return {"shape": list(r.shape), "flat": [bool(x) for x in data.ravel()]}
+        return {"shape": list(r.shape), "flat": [bool(x) for x in data.ravel()], "c": container(r)}
     if kind == "mask_linear":
         if not isinstance(r, list) or not all(isinstance(x, (bool, np.bool_)) for x in r):
             return {"v": f"?{type(r).__name__}"}
@@ -316,7 +329,7 @@ class Ref:
                 return {"v": "masked"}
             if isinstance(r, np.ndarray):
                 m = np.ma.getmaskarray(r)
-                return {"shape": list(r.shape), "flat": ["masked" if m[i] else r.data[i] for i in np.ndindex(*r.shape)]}
+                return {"shape": list(r.shape), "flat": ["masked" if m[i] else r.data[i] for i in np.ndindex(*r.shape)], "c": container(r)}
             return {"v": r}
         if t == "to_array":
             splat = bool(self.internal) if op[1] is None else op[1]
@@ -325,21 +338,23 @@ class Ref:
                     return {"err": "ValueError"}
                 r = self.full()
                 m = np.ma.getmaskarray(r)
-                return {"shape": list(r.shape), "flat": ["masked" if m[i] else r.data[i] for i in np.ndindex(*r.shape)]}
+                return {"shape": list(r.shape), "flat": ["masked" if m[i] else r.data[i] for i in np.ndindex(*r.shape)], "c": container(r)}
             flat = []
             for x in range(n):
                 ids = self.elems.get(x)
                 flat.append("masked" if ids is None else (ids if self.internal else ids[0]))
-            return {"shape": list(self.shape), "flat": flat}
+            return {"shape": list(self.shape), "flat": flat, "c": "MaskedArray[object]"}     # a masked object array of whole elements
         if t == "mask":
-            return {"shape": list(self.shape), "flat": [x not in self.elems for x in range(n)]}
+            return {"shape": list(self.shape), "flat": [x not in self.elems for x in range(n)],
+                    "c": container(np.ma.getmaskarray(self.lin).view(np.ma.MaskedArray))}
         if t == "mask_linear":
             return {"list": [x not in self.elems for x in range(n)]}
         if t == "has":
-            return {"b": op[1] in self.elems} if 0 <= op[1] < n else None
+            # a linear index outside the array: `ndarray.flat[i]` raises IndexError
+            return {"b": op[1] in self.elems} if 0 <= op[1] < n else {"err": "IndexError"}
         if t == "at":
             if not 0 <= op[1] < n:
-                return None
+                return {"err": "IndexError"}
             ids = self.elems.get(op[1])
             return {"err": "Missing"} if ids is None else {"v": ids if self.internal else ids[0]}
         if t == "persist_reopen":
@@ -366,12 +381,16 @@ def key_problems(op, g):
 
 
 def in_domain(op, g):
-    if op[0] in ("has", "at"):
-        size = 1
-        for d in g["shape"]:
-            size *= d
-        return 0 <= op[1] < size
+    """every operation is compared with the reference and across backends (linear indices outside 0 <= i < size included
+    since the DF-C07-linear repair: `C07_refines_all_indices` needs no domain hypothesis any more)"""
     return True
+
+
+def lin_in_range(op, g):
+    size = 1
+    for d in g["shape"]:
+        size *= d
+    return 0 <= op[1] < size
 
 
 # ------------------------------------------------------------------------------------------------ generators
@@ -443,8 +462,8 @@ class Gen:
         if t == "to_array":
             return ["to_array", self.rng.choice([None, None, True, False])]
         if t in ("has", "at"):
-            if malformed and self.rng.random() < 0.6:
-                return [t, self.rng.choice([-1, -size, size, size + 1, size * 2 + 3])]
+            if self.rng.random() < (0.6 if malformed else 0.12):
+                return [t, self.rng.choice([-1, -size, -size - 1, size, size + 1, size * 2 + 3])]
             return [t, self.rng.randrange(size)]
         return [t]
 
@@ -478,7 +497,7 @@ def sweep_case(gen, g, reads_only_after):
     for d in g["shape"]:
         size *= d
     tail = [["to_array", None], ["to_array", False], ["to_array", True], ["mask"], ["mask_linear"]] + \
-           [[t, i] for i in range(size) for t in ("has", "at")] + [["persist_reopen"]]
+           [[t, i] for i in range(-1, size + 1) for t in ("has", "at")] + [["persist_reopen"]]
     return [{"geom": g, "ops": reads + tail}, {"geom": g, "ops": prefix + reads + tail + reads[: len(reads) // 3]},
             {"geom": g, "ops": ops + tail}]
 
@@ -513,6 +532,24 @@ CORPUS = [
     {"geom": {"shape": [3, 2], "internal": [], "mask": [True, True]},
      "ops": [["dump", [["s", None, None, -2], 1], [3]], ["persist_reopen"], ["get", [["s", 5, -5, -1], ["s", -1, None, None]]], ["to_array", None],
              ["to_array", True], ["get", [["s", 1, 1, None], 0]], ["get", [3, 0]], ["get", [-4, 0]], ["get", [0]], ["get", [0, 0, 0]], ["at", 1], ["at", 0]]},
+    # DF-C07-linear: linear indices outside the array (dict: ValueError, file: False / FileNotFoundError on the pinned tree)
+    {"geom": {"shape": [2], "internal": [], "mask": [True]}, "ops": [["has", 2], ["at", 2], ["at", 1], ["has", -1], ["at", -1], ["dump", [1], [1]],
+                                                                    ["has", 1], ["has", 2], ["at", -2], ["at", 3]]},
+    {"geom": G_LEAD, "ops": [["dump", [2], [1, 2]], ["has", 3], ["at", 3], ["has", -3], ["has", 2], ["at", 2]]},
+    {"geom": {"shape": [], "internal": [2], "mask": [False]}, "ops": [["has", 1], ["at", 1], ["has", -1], ["dump", [], [1, 2]], ["has", 0], ["at", 1]]},
+    # DF-C07-container: DictArray.__getitem__ with a slice key returned a plain ndarray (FileArray: MaskedArray)
+    {"geom": {"shape": [2, 3], "internal": [], "mask": [True, True]},
+     "ops": [["get", [["s", None, None, None], 0]], ["dump", [0, 0], [1]], ["get", [["s", None, None, None], ["s", None, None, None]]],
+             ["get", [["s", 1, 1, None], 0]], ["dump", [["s", None, None, None], ["s", None, None, None]], [2]], ["get", [0, ["s", None, None, -1]]]]},
+    {"geom": G_TRAIL, "ops": [["dump", [1], [3, 4]], ["get", [["s", None, None, None], 1]], ["get", [1, ["s", None, None, None]]], ["to_array", None],
+                              ["to_array", False], ["mask"]]},
+    # falsy stored values (ids 20, 5, 10, 15 = None, False, "", 0.0): a written None / False is not "missing" (seeded change C07-s2-A)
+    {"geom": {"shape": [2, 2], "internal": [], "mask": [True, True]},
+     "ops": [["dump", [0, 0], [20]], ["dump", [0, 1], [5]], ["dump", [1, 0], [10]], ["to_array", None], ["to_array", False], ["mask"], ["mask_linear"],
+             ["get", [0, 0]], ["at", 0], ["has", 0], ["get", [["s", None, None, None], 0]], ["dump", [1, 1], [15]], ["persist_reopen"], ["to_array", None],
+             ["get", [["s", None, None, None], ["s", None, None, None]]], ["at", 3]]},
+    {"geom": G_TRAIL, "ops": [["dump", [0], [20, 5]], ["to_array", None], ["to_array", False], ["get", [0, 0]], ["get", [0, ["s", None, None, None]]],
+                              ["at", 0], ["mask_linear"], ["persist_reopen"], ["to_array", True]]},
 ]
 
 
@@ -624,6 +661,10 @@ def check_cases(ctx, cases, base, label):
         for i, op in enumerate(ops):
             o = model["dict"][i]
             ctx.count(f"op:{op[0]}")
+            if op[0] in ("has", "at") and not lin_in_range(op, g):
+                ctx.count("linear-index:out-of-range")
+            if isinstance(o, dict) and "c" in o:
+                ctx.count(f"container:{op[0]}:{o['c']}")
             if isinstance(o, dict) and "err" in o:
                 ctx.count(f"model:{op[0]}:{o['err']}")
             elif op[0] in ("get", "get_bare"):
@@ -692,11 +733,35 @@ def gen_cases(ctx):
 def run(ctx):
     base = tempfile.mkdtemp(prefix="verif-c07-")
     try:
+        import time
+        import c07_geom
+        import c07_conc
+        t = [time.monotonic()]
+
+        def lap(name):
+            ctx.count(f"wall-ms:{name}", int((time.monotonic() - t[0]) * 1000))
+            t[0] = time.monotonic()
         check_cases(ctx, [copy.deepcopy(c) for c in CORPUS], base, "corpus")
+        lap("corpus")
         for label, cases in gen_cases(ctx).items():
             check_cases(ctx, cases, base, label)
             shutil.rmtree(base, ignore_errors=True)
             os.makedirs(base, exist_ok=True)
+            lap(label)
+        # the extension streams share one batch of Lean requests (a driver start costs 1-4 s)
+        parts = [(c07_geom.prepare_registry, c07_geom.finish_registry, "registry"),
+                 (c07_geom.prepare_construct, c07_geom.finish_construct, "construct"),
+                 (c07_conc.prepare, c07_conc.finish, "conc")]
+        prepared = [p(ctx) for p, _, _ in parts]
+        outs = ctx.lean([r for reqs, _ in prepared for r in reqs])
+        lap("ext-lean")
+        k = 0
+        for (reqs, state), (_, fin, name) in zip(prepared, parts):
+            fin(ctx, base, state, outs[k: k + len(reqs)])
+            k += len(reqs)
+            shutil.rmtree(base, ignore_errors=True)
+            os.makedirs(base, exist_ok=True)
+            lap(name)
     finally:
         shutil.rmtree(base, ignore_errors=True)
 
@@ -704,6 +769,12 @@ def run(ctx):
 def replay(ctx, case):
     base = tempfile.mkdtemp(prefix="verif-c07-")
     try:
+        if case.get("stream") in ("construct", "init_arrays", "registry", "update_array"):
+            import c07_geom
+            return c07_geom.replay(ctx, case, base)
+        if case.get("stream") == "conc":
+            import c07_conc
+            return c07_conc.replay(ctx, case, base)
         case = {"geom": case["geom"], "ops": case["ops"]}
         backends = [b for b in sorted(storage_registry) if b in MODEL_OF]
         impl, robs = evaluate(case, base, "replay", backends)
